@@ -63,3 +63,20 @@ var commonAssumptions = []string{
 	"test files are not analysed (rules are about production code); generated sources are analysed as compiled",
 	"the rule tables (anchors, allowed callers, frozen exceptions) in checker/props were confirmed by reading the pinned tree",
 }
+
+// eqAny is the pattern of an equality atom one side of which is a (regexp) and the other side
+// any expression — a counter held in a local, or the call of a counting helper.  Equality
+// atoms are normalised with their operands in lexical order, so both orders are accepted.
+func eqAny(a string) string { return `^(?:` + a + `==.+|.+==` + a + `)$` }
+
+// opaque names functions that stay calls in the interprocedural view of this property's
+// anchors (they are separate protocols with their own rules or outside the claimed clause);
+// resolving them registers them with Program.NoInline.
+func opaque(r *an.Rule, specs ...string) {
+	for _, s := range specs {
+		_ = r.C.P.Obj(s)
+	}
+}
+
+// elemRe: see an.ElemRe.
+const elemRe = an.ElemRe
